@@ -388,6 +388,14 @@ def runGroups (F : Flags) (P : Params) (cfg : Cfg) : List (Nat Ã— Ev) â†’ (Nat â
   | (k, .occ o) :: es, gs =>
     (step F P cfg (gs k) o).2 :: runGroups F P cfg es (fun j => if j = k then (step F P cfg (gs k) o).1 else gs j)
 
+/-- `EvalFunc.trigger_init` (eval.py, the loop over the decorators): `if len(trig_decs[dec_name]) > 0 and "rep_ok" not in arg_info:
+raise SyntaxError("â€¦ decorator @â€¦ can only be used once")` â€“ `@state_active` and `@time_active` have no `rep_ok`.  The exception leaves
+`trigger_init` before any trigger task is created (the caller logs it and still binds the name): with `nSA` / `nTA` decorators of
+the two kinds on the function, no occurrence ever starts it, a direct call does. -/
+def runFn (F : Flags) (P : Params) (cfg : Cfg) (nSA nTA : Nat) (es : List (Nat Ã— Ev)) : List Bool :=
+  if nSA > 1 || nTA > 1 then es.map (fun e => match e.2 with | .direct => true | .occ _ => false)
+  else runGroups F P cfg es (fun _ => GState.init)
+
 end Legacy
 
 /-! ## new subsystem -/
